@@ -501,6 +501,17 @@ func (txn *Txn) DeleteKey(key string) error {
 // a transaction in order to perform partial rollbacks.
 func (txn *Txn) rollback() {
 	txn.owner.lock.Lock()
+
+	// Release the offsets which were reserved by the inserts of this transaction
+	if markers, ok := txn.findMarkers(); ok {
+		txn.reader.Seek(markers)
+		for txn.reader.Next() {
+			if txn.reader.Type == commit.Insert {
+				txn.owner.fill.Remove(txn.reader.Index())
+			}
+		}
+	}
+
 	atomic.StoreUint64(&txn.owner.count, uint64(txn.owner.fill.Count()))
 	txn.owner.lock.Unlock()
 
